@@ -7,6 +7,7 @@ def main():
     c.correspond("rbc")
     c.correspond("disp")
     c.correspond("rbcsys")
+    c.correspond("disphonest")
     return c.finish(
         rule="rbc: one real rbc.Receiver per session (N in 2..6) under mostly-valid scripts (direct copies + acknowledgements of all other members, shuffled) with injected deviations "
              "(self-acknowledgement, replay, conflicting digest, short digest, non-member, re-sent payload, attributed to self) and an unstructured stream; disp: the same through the real "
